@@ -7,6 +7,7 @@ import (
 
 	"github.com/dpb587/inspectjson-go/inspectjson"
 	"github.com/dpb587/rdfkit-go/encoding/jsonld"
+	"github.com/dpb587/rdfkit-go/iri"
 
 	"verifharness/vh"
 )
@@ -213,6 +214,11 @@ func (h *harness) run(c hcase) {
 	if *nomodel {
 		return
 	}
+	if len(c.Steps) > 0 && modeTok(c.Mode) != "xx" {
+		if j, ok := parseJSON(c.Steps[0].Text); ok {
+			h.frag(c, modeTok(c.Mode), optTok(c.OrigBase), jsonld.VerifJSON(j))
+		}
+	}
 	h.add(line, func(model string) {
 		parts := strings.Split(model, " ")
 		if len(parts) != 2 {
@@ -252,4 +258,152 @@ func (h *harness) run(c hcase) {
 			}
 		}
 	})
+}
+
+// frag queues the comparison of the fragment semantics (Spec/JsonLdFragment.lean, JL.processLocal) with
+// the model on the first local context of a history: whenever the fragment accepts the context, the
+// model (which T3 ties to the code) must produce the corresponding term table.
+func (h *harness) frag(c hcase, mode, base, wire string) {
+	line := "ctx.frag " + mode + " " + base + " " + wire
+	if h.fragSeen == nil {
+		h.fragSeen = map[string]bool{}
+	}
+	if h.fragSeen[line] {
+		return
+	}
+	h.fragSeen[line] = true
+	rep := h.rep
+	h.add(line, func(model string) {
+		switch {
+		case model == "outside":
+			rep.Count("fragment:outside")
+		case model == "outside:iri-syntax":
+			// the fragment's absIri accepts strings the IRI parser (net/url) rejects
+			rep.Count("fragment:outside-iri-syntax")
+		case model == "DISAGREE:model-error:invalid_IRI_mapping" && mode == "11" && hasSingleColonTerm(c.Steps[0].Text) && h.isKnown("jsonld-single-colon-term"):
+			rep.Count("fragment:known-single-colon-term")
+			rep.Add(vh.Case{Kind: "known", Key: h.knownKey("jsonld-single-colon-term"), Op: line, Model: model, Detail: "term \":\" rejected in json-ld-1.1: " + c.Steps[0].Text})
+		case model == "unmodelled":
+			rep.Count("fragment:unmodelled")
+		case strings.HasPrefix(model, "agree:"):
+			rep.Count("fragment:agree")
+			if model != "agree:0" {
+				rep.Count("fragment:agree-with-terms")
+			}
+		case resolverClass(model, c.Steps[0].Text) && h.isKnown("jsonld-resolver-deviates-from-rfc3986"):
+			// known finding C10-K1: @vocab / @base given as a relative reference is resolved with the net/url
+			// wrapper, which deviates from RFC 3986 5.2 (the fragment semantics resolves with RFC3986Lite)
+			rep.Count("fragment:known-resolver-deviation")
+			rep.Add(vh.Case{Kind: "known", Key: h.knownKey("jsonld-resolver-deviates-from-rfc3986"), Op: line, Model: model, Detail: "relative @vocab/@base resolved differently from RFC 3986: " + c.Steps[0].Text + " (mode " + c.Mode + ", base " + optStr(c.OrigBase) + ")"})
+		default:
+			rep.Count("fragment:" + model)
+			rep.Add(vh.Case{Kind: "disagreement", Op: line, Model: model, Detail: "the fragment semantics (Spec/JsonLdFragment.lean) accepts this local context but the model of the context machinery does not give the corresponding context: " + c.Steps[0].Text + " (mode " + c.Mode + ", base " + optStr(c.OrigBase) + ")"})
+		}
+	})
+}
+
+// hasSingleColonTerm: predicate of the known finding jsonld-single-colon-term: a context definition
+// (the local context or a member of the local context array) defines the term ":".
+func hasSingleColonTerm(text string) bool {
+	var v any
+	if json.Unmarshal([]byte(text), &v) != nil {
+		return false
+	}
+	check := func(x any) bool {
+		m, ok := x.(map[string]any)
+		if !ok {
+			return false
+		}
+		_, has := m[":"]
+		return has
+	}
+	if check(v) {
+		return true
+	}
+	if xs, ok := v.([]any); ok {
+		for _, x := range xs {
+			if check(x) {
+				return true
+			}
+		}
+	}
+	return false
+}
+
+func (h *harness) isKnown(predicate string) bool {
+	_, ok := h.known[predicate]
+	return ok
+}
+
+func (h *harness) knownKey(predicate string) string { return h.known[predicate].Key }
+
+// resolverClass: predicate of the known finding jsonld-resolver-deviates-from-rfc3986 for the fragment
+// comparison: the contexts differ in the vocabulary mapping or the base (and at most in terms derived
+// from them), and a context definition gives @vocab or @base as a relative reference, or as an IRI
+// the net/url wrapper does not print back as it was written.
+func resolverClass(model, text string) bool {
+	if !strings.HasPrefix(model, "DISAGREE:") {
+		return false
+	}
+	hasVB := false
+	for _, d := range strings.Split(strings.TrimPrefix(model, "DISAGREE:"), "+") {
+		switch d {
+		case "vocab", "base":
+			hasVB = true
+		case "term":
+		default:
+			return false
+		}
+	}
+	if !hasVB {
+		return false
+	}
+	var v any
+	if json.Unmarshal([]byte(text), &v) != nil {
+		return false
+	}
+	relative := func(x any) bool {
+		m, ok := x.(map[string]any)
+		if !ok {
+			return false
+		}
+		for _, k := range []string{"@vocab", "@base"} {
+			if s, ok := m[k].(string); ok {
+				i := strings.IndexByte(s, ':')
+				scheme := i > 0
+				for j := 0; scheme && j < i; j++ {
+					c := s[j]
+					if !(c >= 'a' && c <= 'z' || c >= 'A' && c <= 'Z' || j > 0 && (c >= '0' && c <= '9' || c == '+' || c == '-' || c == '.')) {
+						scheme = false
+					}
+				}
+				if !scheme {
+					return true
+				}
+				// an absolute IRI the wrapper prints differently (scheme case, escapes, ...)
+				if p, err := iri.ParseIRI(s); err == nil && p.String() != s {
+					return true
+				}
+			}
+		}
+		return false
+	}
+	if relative(v) {
+		return true
+	}
+	if xs, ok := v.([]any); ok {
+		for _, x := range xs {
+			if relative(x) {
+				return true
+			}
+		}
+	}
+	return false
+}
+
+func optStr(s *string) string {
+	if s == nil {
+		return "none"
+	}
+	return *s
 }
